@@ -301,6 +301,17 @@ class EmptyDir(Task):
         RUNS.append(self.slugname)
         return self.get_data_object()
 
+class Scratchy(Task):           # a directory result whose directory held many scratch files while it was made
+    def run(self) -> DirData:
+        RUNS.append(self.slugname)
+        d = self.get_data_object()
+        for i in range(1500):
+            (d.dir / f'scratch_file_with_a_long_name_{i:05d}').touch()
+        for i in range(1500):
+            (d.dir / f'scratch_file_with_a_long_name_{i:05d}').unlink()
+        (d.dir / 'result.txt').write_text('done')
+        return d
+
 class Resumable(Task):          # started, checkpoint written, not finished: its working directory is kept
     class Meta:
         parameters = [Parameter('finish')]
